@@ -58,6 +58,14 @@ PROPS = {
         technique="property-based testing: rapid state machine over the real app; expected typed-event multiset derived from the record diff vs events parsed as the provider parses them; codec round trip in package events",
         level_text="For every successful transaction the multiset of expected typed events is derived from the before/after record diff (including hook cascades) and compared with the transaction's akash.v1 events parsed through the module ParseEvent chain; spurious created/closed/paused/started events are rejected; all event types round-trip through the provider's real processEvent for generated ids and prices.",
         level_note="Trusted: as C01; events of failed transactions are ignored (they are never published)."),
+    "C17": {
+        "level": "exploration", "floor": 0.4,
+        "technique": "property-based testing: rapid state machine over the real cert keeper and gRPC querier vs a map model; all iterators, filters and page sizes",
+        "level_text": "Generated create/revoke/get/list histories by three owners with serial numbers whose byte encodings are prefixes of each other (0, 1, 255, 256, 65535, 65536, 2^64, 2^158 ...) are checked against a map model: registration only by the named account and once per (owner, serial); valid->revoked only; entries never vanish; every keeper iterator and every gRPC listing (owner/state/serial filters, key- and offset-pagination, limits 1-5) returns without error or panic and contains each matching entry exactly once with its serial and state. Signer enforcement for certificate messages is exercised by the chain machine (C06).",
+        "level_note": "Trusted: Go crypto/x509 for building certificates (serials it refuses to encode are outside the domain); explores sampled histories only; listings may contain non-matching extras without alarm (the statement only demands inclusion).",
+        "assumptions": ["serial numbers are non-negative and encodable by crypto/x509 (<= 20 octets)"],
+        "units": [{"pkg": "x/cert/keeper", "run": "^TestVerif_C17$", "checks": {Q: 400, T: 6000}, "shards": {Q: 2, T: 16}, "steps": 60, "timeout": {Q: 600, T: 3000}, "shrinktime": "30s"}],
+    },
     "C15": {
         "level": "exploration",
         "technique": "property-based testing: rapid state machine vs per-subscriber FIFO model + generated concurrent runs with schedule-independent order oracle",
